@@ -8,13 +8,13 @@ CONSTANT OpenDevs
 Failing(o) ==
   (IF ~OutcomeMatchesX(TopExpect(o.ast, o.env), o.out) THEN <<"value">> ELSE <<>>)
   \o (IF o.op \in {"+", "*"} /\ (o.out.res # o.out2.res \/ o.out.err # o.out2.err) THEN <<"not_commutative">> ELSE <<>>)
-(* Known finding DevNestedSingleton: an array whose only element is itself a   *)
+(* Known finding DevNestedSingleton (the singleton is unwrapped on one side     *)
+(* only: one nesting level is lost and the two orders differ): an array whose only element is itself a   *)
 (* array is spread over a longer array when it is the left operand *)
 (* but gives #VALUE! as the right operand.                                     *)
 Singleton(v) == IsArr(v) /\ Len(v.a) = 1 /\ IsArr(v.a[1])
 DevNestedSingleton(o) ==
-  /\ o.op \in {"+", "*"}
-  /\ Failing(o) = <<"not_commutative">>
+  /\ Failing(o) \in {<<"not_commutative">>, <<"value", "not_commutative">>, <<"value">>}
   /\ \/ (Singleton(o.in.a) /\ IsArr(o.in.b))
      \/ (Singleton(o.in.b) /\ IsArr(o.in.a))
 DevHolds(d, o) == CASE d = "DevNestedSingleton" -> DevNestedSingleton(o) [] OTHER -> FALSE
